@@ -1,7 +1,7 @@
 (* C05 - Supervisor: each reload request yields exactly one serialized in-order pass.
    Statements only. *)
 From Coq Require Import List Bool Arith.
-From GS Require Import LTS Supervisor SupAccept SupProps SupInv SupReload.
+From GS Require Import LTS Supervisor SupAccept SupProps SupInv SupReload SupCount.
 Import ListNotations.
 
 (* In every execution the Reload() calls and returns are a prefix of (one full pass)^k, where a
@@ -51,4 +51,56 @@ Example C05_ex_rejects_non_reloadable :
 Proof. vm_compute. reflexivity. Qed.
 Example C05_ex_rejects_overlap :
   c05_shape c05_cfg [EReloadCall 0; EReloadCall 0] = false.
+Proof. vm_compute. reflexivity. Qed.
+
+(* ---- counting ---- *)
+
+(* No request is duplicated: in every execution the number of passes begun (first Reload() call of
+   a pass) never exceeds the number of requests made so far (ReloadAll() calls, SIGHUP SendSignal
+   calls, ReloadSender triggers). *)
+Theorem C05_no_dup : forall c ls s,
+  run (step c) (init c) ls = Some s -> c05_no_dup c (obs_trace obs ls) = true.
+Proof. exact sup_c05_no_dup. Qed.
+
+(* Exact accounting in every reachable state: the rendezvous completed on the reload channel
+   (passes s) are exactly the passes begun plus the one accepted pass whose first Reload() call is
+   still due; and rendezvous plus the requests still on their way (callers inside ReloadAll() or
+   SendSignal(SIGHUP), queued SIGHUPs, `go ReloadAll()` goroutines, unreceived trigger offers,
+   listeners about to forward) never exceed the requests made. *)
+Theorem C05_count : forall c s,
+  reachable_sup c s ->
+  passes s = passes_begun c (rev (hist s)) + due c s /\
+  passes s + pending_requests s <= requests_upper (rev (hist s)).
+Proof. exact sup_c05_count. Qed.
+
+(* Each rendezvous is accepted by an idle manager only, consumes exactly one request on its way
+   and starts exactly one pass (at the first Reloadable), without any visible event of its own. *)
+Theorem C05_accept_one : forall c s w s',
+  step c s (LRmAccept w) = Some s' ->
+  rm s = RmIdle /\ rm s' = rm_after c 0 /\ passes s' = S (passes s) /\
+  pending_requests s = S (pending_requests s') /\ hist s' = hist s.
+Proof. exact sup_c05_accept_one. Qed.
+
+Print Assumptions C05_no_dup.
+Print Assumptions C05_count.
+Print Assumptions C05_accept_one.
+
+(* non-vacuity: three requests from the three sources, two accepted so far; one still on its way *)
+Definition c05_cfg3 : config :=
+  {| specs := [ {| stateable := false; reloadable := true; rsender := true; ssender := false;
+                   stop_style := StopNonBlocking; run_exit := ExitOnSignal; held_sub := false |} ];
+     startup_may_fire := false; shutdown_may_fire := false |}.
+Definition c05_sched3 : list label :=
+  [LLaunch 0; LCall 1 OpReloadAll; LCall 2 (OpSignal SigHup); LTrigR 0; LSigPut 2; LReapSig;
+   LRmAccept SndHup; LReloadCall 0; LReloadRet 0; LTrigRecvR 0; LRmAccept (SndListener 0)].
+Example C05_ex_count :
+  exists s, run (step c05_cfg3) (init c05_cfg3) c05_sched3 = Some s /\
+            passes s = 2 /\ passes_begun c05_cfg3 (rev (hist s)) = 1 /\ due c05_cfg3 s = 1 /\
+            pending_requests s = 1 /\ requests_upper (rev (hist s)) = 3.
+Proof.
+  eexists. split; [vm_compute; reflexivity|]. split; [vm_compute; reflexivity|].
+  split; [vm_compute; reflexivity|]. split; [vm_compute; reflexivity|]. split; vm_compute; reflexivity.
+Qed.
+Example C05_ex_rejects_unrequested_pass :
+  c05_no_dup c05_cfg [ECall 1 OpReloadAll; EReloadCall 0; EReloadRet 0; EReloadCall 2; EReloadRet 2; EReloadCall 0] = false.
 Proof. vm_compute. reflexivity. Qed.
